@@ -12,21 +12,22 @@ for d in sorted(glob.glob(os.path.join(ROOT, "seeded", "C??-*"))):
     k = int(name.split("-")[1])
     chk = m.get("my_check", {})
     conf = m.get("confirmed_by_me", {})
-    rows.append((name, 1 if k <= 2 else 2, m.get("breaks", "")[:150].replace("|", "/").replace("\n", " "),
+    rows.append((name, m.get('round', 1 if k <= 2 else (2 if k <= 4 else 3)), m.get("breaks", "")[:150].replace("|", "/").replace("\n", " "),
                  m.get("needs", "")[:130].replace("|", "/").replace("\n", " "), chk.get("violations", 0), chk.get("exit_code"),
                  chk.get("first_replays", "")[:90], conf.get("tests_with_change", ""), conf.get("demo_exit_without_change"),
                  conf.get("demo_exit_with_change"), m.get("first_run_of_existing_check", "")))
 out = ["# Seeded changes", "",
        "Each directory holds `patch.diff` (against /repo HEAD), the sub-agent's `demo.py` and `meta.json` (what it breaks, what it "
        "needs to manifest, what was run to confirm it, and what the property's quick check reported against a scratch worktree "
-       "with the change applied).  Seeds `-1`/`-2` are round 1 (agents worked on the pinned commit), `-3`/`-4` round 2 (agents "
-       "worked on /repo HEAD with the fix: commits, were told which ideas round 1 had used and asked for changes different in "
-       "kind and as subtle as possible).  Every seed is confirmed (suite 123 passed with the change, demo exits 0 without and "
+       "with the change applied).  Seeds `-1`/`-2` are round 1 (agents worked on the pinned commit), `-3`/`-4` round 2 and "
+       "`-5`/`-6` round 3 (agents worked on /repo HEAD with the fix: commits, were told which ideas the earlier rounds had used "
+       "and asked for changes different in kind and as subtle as possible).  Every seed is confirmed (suite 123 passed with the change, demo exits 0 without and "
        "non-zero with it).  `first run` = what the check of that property reported *before* any strengthening prompted by the "
        "seed; the `violations` column is the check as committed now.", "",
-       f"Totals: {len(rows)} seeds; reported now: {sum(1 for r in rows if r[4])}; "
-       f"round 2 caught on the first run: {sum(1 for r in rows if r[1] == 2 and str(r[10]).startswith('caught'))} of "
-       f"{sum(1 for r in rows if r[1] == 2)}.", "",
+       f"Totals: {len(rows)} seeds; reported by the checks as committed: {sum(1 for r in rows if r[4])}.  Caught on the first "
+       f"run - round 2: {sum(1 for r in rows if r[1] == 2 and str(r[10]).startswith('caught'))} of "
+       f"{sum(1 for r in rows if r[1] == 2)}; round 3: {sum(1 for r in rows if r[1] == 3 and str(r[10]).startswith('caught'))} of "
+       f"{sum(1 for r in rows if r[1] == 3)}.", "",
        "| seed | round | change | needs | first run | violations now | first obligations that fire |", "|---|---|---|---|---|---|---|"]
 for r in rows:
     out.append(f"| {r[0]} | {r[1]} | {r[2]} | {r[3]} | {r[10] or ('caught' if r[1] == 1 else '')} | {r[4]} | {r[6]} |")
